@@ -42,7 +42,9 @@ _N = "self._num_binary_variables"
 _RMAP_OK = ("forall_idx(%s, lambda i: has_key(self._reverse_mapping, i) and "
             "has_key(self._mapping, map_at(self._reverse_mapping, i)) and "
             "label_at(self._mapping, map_at(self._reverse_mapping, i)) == i)" % _N)
-_REQ = [FORM.format("solution"), "sol_len(solution) >= %s" % _N, _RMAP_OK]
+# the C14 invariants: counter = number of mapped labels = next label (bk), mapping / reverse mapping mutually inverse
+# enumerations of 0 .. next_label - 1 (mapinv) - both proved for construction, item assignment, += -= and update
+_REQ = [FORM.format("solution"), "sol_len(solution) >= %s" % _N, "bk(self)", "mapinv(self)"]
 
 
 def _conv(qn, classes, value_expr):
